@@ -419,6 +419,8 @@ theorem rInv_step (H : IdFn) {K : PolicyKey → Prop} {g : Graph} {tds : C03.Tie
     exact rInv_evs (g' := (Graph.arcPolicy H { g with polKeys := C02.mset nid key g.polKeys } nid v).resStep
         (.policy key (v.map (·.pmeta)))) hi2 rfl
       [.policy key (v.map (·.pmeta))] (by intro e he; simp at he; subst he; exact hu) rfl rfl
+  | passthru c key v =>
+    exact rInv_rel hi (resRel_emit g _ (by intro x hx; simp at hx; subst hx; cases v <;> rfl))
   | other => exact hi
 
 theorem rInv_inSync {K : PolicyKey → Prop} {g : Graph} {tds : C03.TierDS} (hi : RInv K g tds) : RInv K g.inSync tds :=
@@ -545,6 +547,8 @@ theorem resEvs_step (H : IdFn) (g : Graph) (u : Upd) : ResEvs g (g.step H u) := 
     simp only [Graph.step]
     exact (ResEvs.of_eq (g := g) (g' := { g with polKeys := C02.mset nid key g.polKeys }) rfl).trans
       ((ResEvs.of_rel (resRel_arcPolicy H _ nid v)).trans (ResEvs.resStep _ _))
+  | passthru c key v =>
+    exact ResEvs.of_rel (resRel_emit g _ (by intro x hx; simp at hx; subst hx; cases v <;> rfl))
   | other => exact ResEvs.of_eq rfl
 
 theorem inSync_step (H : IdFn) {g : Graph} (h : g.res.inSync = true) (u : Upd) : (g.step H u).res.inSync = true := by
@@ -633,6 +637,11 @@ theorem declared_endpoints_isSpec (H : IdFn) (s : Bool) (h : List HStep) (K : Po
     rw [hcalls, hL]; unfold lastOf; rw [lastAfter_append]
   have hsr : r.inSync = true := by rw [C03.flush_inSync hf]; exact hsync
   have spec := C03.resolver_eq_spec K hK hist h1 r L hr hsr e
+  -- C03 states its result over folds of the history; these ARE the resolver's tables
+  obtain ⟨t1, t2, t3⟩ := C03.runL_tables (hist ++ [.flush]) hr
+  obtain ⟨a1, a2, a3⟩ := C03.tables_append_flush hist
+  rw [a1] at t1; rw [a2] at t2; rw [a3] at t3
+  rw [← t1, ← t2, ← t3] at spec
   rw [decl_ep, hlast, hres, ← h3]
   cases hm : mget r.endpoints e with
   | none =>
